@@ -69,7 +69,7 @@ def runScenario (p : Problem) (j : Json) : Except String Json := do
   let dest ← parseDest (← j.getObjVal? "dest")
   let ow ← (← j.getObjVal? "overwrite").getBool?
   let plan ← parseFault (← j.getObjVal? "fault")
-  let (r, fs) := writeToFile p ⟨dest, none⟩ ow plan
+  let (r, fs) := writeToFileNow p ⟨dest, none⟩ ow plan
   return Json.mkObj [("result", match r with | none => Json.null | some e => errName e),
                      ("dest", destJson fs.dest), ("tmp", fs.tmp.isSome)]
 
@@ -77,7 +77,7 @@ def runWrite (j : Json) : Except String Json := do
   let p ← parseProblem (← j.getObjVal? "problem")
   let scs ← (← j.getObjVal? "scenarios").getArr?
   let rs ← scs.toList.mapM (runScenario p)
-  return Json.mkObj [("render", match render p with | none => Json.null | some ls => toJson ls),
+  return Json.mkObj [("render", match renderNow p with | none => Json.null | some ls => toJson ls),
                      ("nformat", toJson (countFormats p MontePyVerif.Gen.WriteOrder.sequence)),
                      ("results", Json.arr rs.toArray)]
 
